@@ -407,6 +407,38 @@ def body_first_call(case):
     return labels
 
 
+def body_units(case):
+    """Altitudes / pressures handed over as astropy Quantities IN THE DOCUMENTED UNIT (km, Pa): the value of the plain
+    number, or refused, in both copies. (Quantities in other units are outside any statement: the pinned tree strips the
+    unit and reads the bare number - demanding 'honoured or refused' for them was an over-reach of mine.)"""
+    from ..strategies import unit_forms
+
+    m1, m2 = _mods()
+    labels = set()
+    for mod in (m1, m2):
+        for fn, vals, unit, others in (("us_std_atm_pressure_from_altitude", case["z"], "km", []), ("us_std_atm_altitude_from_pressure", case["p"], "Pa", [])):
+            f = getattr(mod, fn)
+            want = np.asarray(f(np.array(vals, dtype=np.float64)))
+            for uname, q in unit_forms(vals, unit, others):
+                try:
+                    got = f(q)
+                except Exception:  # noqa: BLE001 - refusing a unit-carrying input is fine
+                    labels.add("refused_" + uname)
+                    continue
+                gv = getattr(got, "value", got)
+                if hasattr(got, "unit") and str(got.unit) not in ("", "dimensionless"):
+                    # a result that carries a unit is converted to the documented one first
+                    import astropy.units as u_
+
+                    try:
+                        gv = got.to(u_.Pa if fn.endswith("from_altitude") else u_.km).value
+                    except Exception:  # noqa: BLE001
+                        gv = got.value
+                require(same_values(np.asarray(gv, dtype=np.float64), want, rtol=1e-12), f"{fn}: {vals[:3]} {unit} given as an astropy Quantity in {uname} gives {np.asarray(gv).ravel()[:3].tolist()}, the plain numbers in {unit} give {want.ravel()[:3].tolist()} (neither honoured nor refused)")
+                labels.add("honoured_" + uname)
+    return labels
+
+
 INT_DTYPES = ["int8", "int16", "int32", "int64", "uint8", "uint16", "uint32", "uint64", "pyint"]
 
 
@@ -548,6 +580,14 @@ SUBCHECKS = [
         {"quick": 1},
         doc="exhaustive +-8 (quick) / +-64 (thorough) ulp sweep around every tabulated boundary pressure",
         exhaustive=_exh_boundaries_p,
+    ),
+    SubCheck(
+        "unit_carrying_inputs",
+        st.fixed_dictionaries({"z": st.lists(st.floats(0.0, 100.0), min_size=1, max_size=6), "p": st.lists(log_uniform(1.0, 101325.0), min_size=1, max_size=6)}),
+        body_units,
+        lambda labels: True,
+        {"quick": 150, "thorough": 4000},
+        doc="altitudes and pressures as astropy Quantities in the documented unit (km, Pa) == the plain numbers (or refused), both copies",
     ),
     SubCheck(
         "first_call_overlap",
